@@ -416,3 +416,212 @@ pub fn run_stall<W: std::io::Write>(seed: u64, rounds: u64, out: &mut W) {
         .unwrap();
     }
 }
+
+// ---------------------------------------------------------------------------------------------
+// `hammer`: tight real-thread loops with an online oracle (supporting search for a failing input;
+// never a proof).  Three kinds of round, each a few tens of milliseconds:
+//
+//  watermark  one writer loops `insert(K, i); <clock tick>; invalidate_all(); upto = i`; readers
+//             loop `a = upto; v = get(K)`: a value `v <= a` was discarded by an `invalidate_all`
+//             that had returned before the `get` began (C01/C02/C07);
+//  mono       one writer loops `insert(K, i); done = i` (no capacity): a reader that saw
+//             `done = a` before its `get` must get `Some(v)` with `v >= a`, and the values one
+//             reader sees never go backwards (C02);
+//  syncs      writers insert distinct keys while other threads call `sync()` in a loop (explicit
+//             maintenance beside the housekeeping of the writers): no panic (the library's own
+//             debug assertions are on), and at quiescence `entry_count()` / `weighted_size()`
+//             agree with the residents (C08/C10).
+//
+// Output: `hammer round=<r> kind=<k> ops=<n> bad=<b>`, preceded by `hammer-bad …` lines.
+// ---------------------------------------------------------------------------------------------
+pub fn run_hammer<W: std::io::Write>(seed: u64, rounds: u64, out: &mut W) {
+    use std::sync::atomic::AtomicBool;
+    use std::time::{Duration, Instant};
+    for r in 0..rounds {
+        let mut rng = Rng::new(splitmix(seed.wrapping_mul(32452843).wrapping_add(r)));
+        let kind = ["watermark", "mono", "syncs"][(r % 3) as usize];
+        let millis = 30 + rng.below(50);
+        let readers = 2 + rng.below(2) as usize;
+        let stop = Arc::new(AtomicBool::new(false));
+        let mut bad: Vec<String> = Vec::new();
+        let mut ops = 0u64;
+        match kind {
+            "watermark" | "mono" => {
+                let wm = kind == "watermark";
+                let mut b = SCache::<u64, u64>::builder();
+                if wm && rng.chance(1, 2) {
+                    b = b.max_capacity(100);
+                }
+                if wm && rng.chance(1, 3) {
+                    b = b.time_to_live(Duration::from_secs(30));
+                }
+                let cache = b.build_with_hasher(VBuildHasher(HashKind::Mix));
+                for k in 1..20u64 {
+                    cache.insert(1000 + k, k);
+                }
+                let mark = Arc::new(AtomicU64::new(0));
+                let key = rng.below(4);
+                let mut hs = Vec::new();
+                for _ in 0..readers {
+                    let c = cache.clone();
+                    let st = Arc::clone(&stop);
+                    let mk = Arc::clone(&mark);
+                    hs.push(std::thread::spawn(move || {
+                        let mut n = 0u64;
+                        let mut last = 0u64;
+                        let mut bad: Option<String> = None;
+                        while !st.load(Ordering::Relaxed) {
+                            let a = mk.load(Ordering::SeqCst);
+                            let v = c.get(&key);
+                            n += 1;
+                            match v {
+                                Some(v) if wm && v <= a => {
+                                    bad = Some(format!("get returned {} although every value up to {} had been discarded by an invalidate_all that returned before the get began", v, a));
+                                    break;
+                                }
+                                Some(v) if !wm && (v < a || v < last) => {
+                                    bad = Some(format!("get returned {} after insert {} had completed (previously seen {})", v, a, last));
+                                    break;
+                                }
+                                None if !wm && a > 0 => {
+                                    bad = Some(format!("get returned none after insert {} had completed (no capacity, no expiry, no invalidation)", a));
+                                    break;
+                                }
+                                Some(v) => last = v,
+                                None => {}
+                            }
+                        }
+                        (n, bad)
+                    }));
+                }
+                let t0 = Instant::now();
+                let mut i = 0u64;
+                while t0.elapsed() < Duration::from_millis(millis) {
+                    i += 1;
+                    cache.insert(key, i);
+                    if wm {
+                        // invalidate_all discards what was written at a strictly earlier clock reading
+                        let t = Instant::now();
+                        while t.elapsed() < Duration::from_nanos(300) {
+                            std::hint::spin_loop();
+                        }
+                        cache.invalidate_all();
+                    }
+                    mark.store(i, Ordering::SeqCst);
+                }
+                stop.store(true, Ordering::Relaxed);
+                ops += i;
+                for h in hs {
+                    match h.join() {
+                        Ok((n, b)) => {
+                            ops += n;
+                            if let Some(b) = b {
+                                bad.push(b);
+                            }
+                        }
+                        Err(_) => bad.push("a reader thread panicked".into()),
+                    }
+                }
+            }
+            _ => {
+                let cap = 50 + rng.below(400);
+                let weighted = rng.chance(1, 2);
+                let mut b = SCache::<u64, u64>::builder().max_capacity(cap);
+                if weighted {
+                    b = b.weigher(|_k: &u64, v: &u64| (*v % 4) as u32);
+                }
+                let cache = b.build_with_hasher(VBuildHasher(HashKind::Mix));
+                let writers = 2 + rng.below(2) as u64;
+                let mut hs = Vec::new();
+                for w in 0..writers {
+                    let c = cache.clone();
+                    let st = Arc::clone(&stop);
+                    hs.push(std::thread::spawn(move || {
+                        let mut n = 0u64;
+                        while !st.load(Ordering::Relaxed) {
+                            let k = w * 1_000_000 + n % 700;
+                            match n % 5 {
+                                0 => c.invalidate(&k),
+                                1 => {
+                                    let _ = c.get(&k);
+                                }
+                                _ => c.insert(k, n),
+                            }
+                            n += 1;
+                        }
+                        n
+                    }));
+                }
+                for _ in 0..readers {
+                    let c = cache.clone();
+                    let st = Arc::clone(&stop);
+                    hs.push(std::thread::spawn(move || {
+                        let mut n = 0u64;
+                        while !st.load(Ordering::Relaxed) {
+                            c.sync();
+                            n += 1;
+                        }
+                        n
+                    }));
+                }
+                std::thread::sleep(Duration::from_millis(millis));
+                stop.store(true, Ordering::Relaxed);
+                // a panic inside a maintenance run can leave the others spinning for ever: wait
+                // a bounded time for them, report, and end the process if some never return
+                let t0 = Instant::now();
+                while hs.iter().any(|h| !h.is_finished()) && t0.elapsed() < Duration::from_secs(8) {
+                    std::thread::sleep(Duration::from_millis(5));
+                }
+                let stuck = hs.iter().filter(|h| !h.is_finished()).count();
+                if stuck > 0 {
+                    for h in hs {
+                        if h.is_finished() {
+                            if let Err(e) = h.join() {
+                                let msg = e.downcast_ref::<String>().cloned()
+                                    .or_else(|| e.downcast_ref::<&str>().map(|s| s.to_string()))
+                                    .unwrap_or_else(|| "?".into());
+                                writeln!(out, "hammer-bad round={} kind={} a thread panicked inside the cache: {}", r, kind, msg.replace('\n', " ")).unwrap();
+                            }
+                        }
+                    }
+                    writeln!(out, "hammer-bad round={} kind={} {} thread(s) did not return from a cache call within 8 s after the round ended", r, kind, stuck).unwrap();
+                    writeln!(out, "hammer round={} kind={} ops={} bad={}", r, kind, ops, stuck).unwrap();
+                    out.flush().unwrap();
+                    std::process::exit(0);
+                }
+                for h in hs {
+                    match h.join() {
+                        Ok(n) => ops += n,
+                        Err(e) => {
+                            let msg = e.downcast_ref::<String>().cloned()
+                                .or_else(|| e.downcast_ref::<&str>().map(|s| s.to_string()))
+                                .unwrap_or_else(|| "?".into());
+                            bad.push(format!("a thread panicked inside the cache: {}", msg.replace('\n', " ")));
+                        }
+                    }
+                }
+                if bad.is_empty() {
+                    let q = std::panic::catch_unwind(std::panic::AssertUnwindSafe(|| {
+                        cache.sync();
+                        cache.sync();
+                        let resident: Vec<(u64, u64)> = cache.iter().map(|e| (*e.key(), *e.value())).collect();
+                        let wsum: u64 = resident.iter().map(|(_, v)| if weighted { v % 4 } else { 1 }).sum();
+                        (cache.entry_count(), cache.weighted_size(), resident.len() as u64, wsum)
+                    }));
+                    match q {
+                        Ok((ec, ws, n, wsum)) => {
+                            if ec != n || ws != wsum {
+                                bad.push(format!("quiescent counters differ from residents: ec={} ws={} resident={} weight={}", ec, ws, n, wsum));
+                            }
+                        }
+                        Err(_) => bad.push("panic at quiescence".into()),
+                    }
+                }
+            }
+        }
+        for b in &bad {
+            writeln!(out, "hammer-bad round={} kind={} {}", r, kind, b).unwrap();
+        }
+        writeln!(out, "hammer round={} kind={} ops={} bad={}", r, kind, ops, bad.len()).unwrap();
+    }
+}
